@@ -215,6 +215,9 @@ func (v *Verifier) checkTableImmutable(sp *ssa.Package, g *ssa.Global) error {
 					}
 					switch t := ins.(type) {
 					case *ssa.UnOp:
+						if valueCopy(t.Type()) {
+							continue // a copy of a value without references: anything may be done with it
+						}
 						if !readOnlyUse(t) {
 							return fmt.Errorf("table %s may be modified or escape in %s", g.Name(), f.Name())
 						}
@@ -333,4 +336,22 @@ func (fx *FnCtx) flattenJSON(t types.Type, raw json.RawMessage, key string) []*T
 	}
 	fx.fail("table %s: unsupported element type %v", key, t)
 	return nil
+}
+
+// valueCopy: values of this type hold no references into the table (scalars and arrays of scalars).
+func valueCopy(t types.Type) bool {
+	switch u := t.Underlying().(type) {
+	case *types.Basic:
+		return u.Info()&types.IsString == 0 && u.Kind() != types.UnsafePointer
+	case *types.Array:
+		return valueCopy(u.Elem())
+	case *types.Struct:
+		for i := 0; i < u.NumFields(); i++ {
+			if !valueCopy(u.Field(i).Type()) {
+				return false
+			}
+		}
+		return true
+	}
+	return false
 }
